@@ -851,12 +851,17 @@ impl<'a> Ctx<'a> {
                     let slot = match self.r.below(5) {
                         0 => AttrVal::Static("a".into()),
                         1 => AttrVal::Static("b".into()),
+                        2 if self.r.chance(0.35) => AttrVal::Bind(if self.r.chance(0.5) {
+                            // a slot name that becomes undefined / null / a number
+                            Expr::Cond(Box::new(id("flag")), Box::new(Expr::Str("a".into())), Box::new(member(id("obj"), "nope")))
+                        } else {
+                            member(id("obj"), "k")
+                        }),
                         2 => AttrVal::Bind(id("s")),
                         // (forms that hoist a temporary)
                         3 => AttrVal::Bind(match self.r.below(3) {
                             0 => Expr::Cond(Box::new(id("flag")), Box::new(Expr::Str("a".into())), Box::new(Expr::Str("b".into()))),
                             1 => Expr::Cond(Box::new(id("a")), Box::new(id("s")), Box::new(Expr::Str("a".into()))),
-                            // (never undefined: the runtime reads an undefined slot as "leave it")
                             _ => Expr::Cond(Box::new(bin("%", id("n"), Expr::Num("2".into()))), Box::new(Expr::Str("a".into())), Box::new(Expr::Str("b".into()))),
                         }),
                         _ => AttrVal::None,
@@ -938,6 +943,17 @@ impl<'a> Ctx<'a> {
                     let mut a = vec![];
                     if slot != AttrVal::None {
                         a.push(Attr { name: "slot".into(), val: slot });
+                    }
+                    // attributes of its own: an element that moves to another slot instance is
+                    // created anew during an update and must get all of them
+                    if self.r.chance(0.5) {
+                        a.push(Attr { name: "class".into(), val: AttrVal::Static((*self.r.pick(&["c1", "c2"])).into()) });
+                    }
+                    if self.r.chance(0.4) {
+                        a.push(Attr { name: "id".into(), val: AttrVal::Bind(self.top_expr()) });
+                    }
+                    if self.r.chance(0.3) {
+                        a.push(Attr { name: "data:k".into(), val: AttrVal::Static("dk".into()) });
                     }
                     if self.r.chance(0.4) {
                         a.push(Attr { name: "slot:sv".into(), val: AttrVal::None });
@@ -1101,7 +1117,8 @@ fn gen_op(r: &mut Rng, vg: &mut ValGen, f: &Features, safe_splice: bool, prop: P
         1 => json!(["set", ["obj", *r.pick(&["x", "k"])], vg.scalar(r)]),
         2 => json!(["set", ["obj", "y", "z"], vg.scalar(r)]),
         3 if r.chance(0.25) => match r.below(4) {
-            0 => json!(["set", ["om", *r.pick(&["p", "q", "r"])], vg.record(r)]),
+            // (integer-like field names sort before the others: positions shift)
+            0 => json!(["set", ["om", *r.pick(&["p", "q", "r", "1", "0", "5"])], vg.record(r)]),
             1 => json!(["set", ["om"], {"q": vg.record(r), "p": vg.record(r)}]),
             _ => json!(["set", ["om", *r.pick(&["p", "q"]), *r.pick(&["v", "w"])], vg.scalar(r)]),
         },
